@@ -624,4 +624,66 @@ func c09poller(c *Ctx, a *alphAnchors) {
 		})
 	}
 	R.Floor("C09.poller.add-pending", nadd, 1)
+	// every event of a received batch is filed: each iteration of the loop over the batch reaches
+	// an insertion into the pending set (append to the block's list, or a new entry) — no event is
+	// skipped on account of its content (two messages of one transaction share TxId and EventIndex)
+	evF := must(p.FieldOf(pkgAlph, "UnconfirmedEventsPerBlock", "events"), "UnconfirmedEventsPerBlock.events")
+	isFile := func(i ssa.Instruction) bool {
+		switch x := i.(type) {
+		case *ssa.MapUpdate:
+			return strings.Contains(facts.Term(x.Map), "pendingEvents") || x.Map == ssa.Value(pend)
+		case *ssa.Store:
+			return fieldOfAddr(x.Addr) == evF && !isFreshAlloc(x.Addr)
+		}
+		return false
+	}
+	nloop := 0
+	for _, l := range facts.LoopsOf(a.handleEvents_) {
+		body := l.Body()
+		has := false
+		for b := range body {
+			for _, ins := range b.Instrs {
+				if isFile(ins) {
+					has = true
+				}
+			}
+		}
+		if !has {
+			continue
+		}
+		// the batch loop: the innermost loop containing the insertions
+		inner := true
+		for _, l2 := range facts.LoopsOf(a.handleEvents_) {
+			if l2.Header != l.Header && body[l2.Header] {
+				b2 := l2.Body()
+				for b := range b2 {
+					for _, ins := range b.Instrs {
+						if isFile(ins) {
+							inner = false
+						}
+					}
+				}
+			}
+		}
+		if !inner {
+			continue
+		}
+		nloop++
+		cuts := facts.Cuts{}
+		for _, lt := range l.Latches {
+			for k, sc := range lt.Succs {
+				if sc == l.Header {
+					cuts[facts.Edge{B: lt.Index, K: k}] = true
+				}
+			}
+		}
+		okAll := true
+		for _, lt := range l.Latches {
+			if !facts.BeforeFrom(l.Header, lt.Instrs[len(lt.Instrs)-1], cuts, isFile) {
+				okAll = false
+			}
+		}
+		R.Check("C09.isolate", R.Key("C09.isolate", shortFn(a.handleEvents_), "every-event-filed"), c.rel(p.Pos(instrPos(l.Header.Instrs[0]))), "every event of a received batch is put into the pending set", okAll, "an iteration over the batch can finish without filing its event (an event is skipped because of its content)")
+	}
+	R.Floor("C09.isolate.batch-loop", nloop, 1)
 }
